@@ -116,8 +116,9 @@ prop('C06', units=['round', 'scale', 'context', 'config', 'core', 'pow10'], leve
                  'sign * round_mag(|i|, k, mode) -- the mode table of the RoundingMode documentation applied to the whole discarded tail -- '
                  'in all three regimes (rounding point left of / at / inside the digits) including the carry loop; round_pair equals the '
                  'mode table for every digit pair, sign and tail flag; with_scale truncation equals rounding Down; round(n) uses the '
-                 'configured default mode (symbolic constant); extension multiplies by the exact power of ten'),
-     level_note=_NOTE_COMMON + ' round_u32 is not yet under contract.',
+                 'configured default mode (symbolic constant); extension multiplies by the exact power of ten; round_u32 returns the u32 rounded at a decimal position '
+                 'by the same table (sticky-tail flag included)'),
+     level_note=_NOTE_COMMON + ' round_u32 is under contract for at_digit <= 9 and results that fit u32 (its documented domain).',
      technique=_TECH)
 
 prop('C07', units=['prec', 'round', 'digits', 'context', 'config', 'add', 'core'], level='proof',
